@@ -36,8 +36,14 @@ ATOMS = {
     "apos": ("'", ["apos"], []),
     "uni": ("é", [], []),
     "plain": ("x", [], []),
+    # line breaks inside the message (multi-line OS / OpenSSL / upstream error texts); only sources that can carry them
+    "lf": ("\n", [], []),
+    "crlf": ("\r\n", [], []),
 }
-ATOMS_QUICK = ("tag", "cmt", "copy", "amp", "quot", "apos", "uni")  # the random driver uses all atoms
+NEWLINE_ATOMS = ("lf", "crlf")
+# sites whose source can contain a line break (error text handed over by the connection attempt)
+MULTILINE_SITES = ("connect_failed", "connect_eager_failed")
+ATOMS_QUICK = ("tag", "cmt", "copy", "amp", "quot", "apos", "uni", "lf", "crlf")  # the random driver uses all atoms
 
 # site -> protos, status, source kind, reflects the source, path (see ErrorPage.tla)
 SITES = {
@@ -234,8 +240,8 @@ def ctype_class(values) -> str:
 # driving the real layers
 # ------------------------------------------------------------------------------------------------------
 def payload_text(atoms, neutral: bool) -> str:
-    if neutral:
-        return S_MARK + "zqN" * len(atoms) + E_MARK
+    if neutral:  # letters instead of every atom, but the same line structure
+        return S_MARK + "".join(ATOMS[a][0] if a in NEWLINE_ATOMS else "zqN" for a in atoms) + E_MARK
     return S_MARK + "".join(ATOMS[a][0] for a in atoms) + E_MARK
 
 
@@ -388,7 +394,8 @@ def run_scenario(sc):
     pre, post = sc.get("pre", ""), sc.get("post", "")
     srck = SITES[site][2]
     src = [c for a in atoms for c in ATOMS[a][1]]
-    trace = [{"k": "input", "site": site, "proto": proto, "srck": srck, "src": src}]
+    trace = [{"k": "input", "site": site, "proto": proto, "srck": srck, "src": src,
+              "lines": 1 + sum(1 for a in atoms if a in NEWLINE_ATOMS)}]
     runs = []
     for neutral in (False, True):
         text = pre + payload_text(atoms, neutral) + post
@@ -439,7 +446,7 @@ class Check(core.PropertyCheck):
     MODEL = "ErrorPage"
     MON = "Mon_ErrorPage"
     REQUIRED_WITNESSES = ("html_page_h1", "html_page_h2", "reflected", "not_reflected", "escaped_lt", "escaped_amp",
-                          "escaped_quot", "escaped_apos", "h1_length_exact", "h1_closed", "plain_page")
+                          "escaped_quot", "escaped_apos", "h1_length_exact", "h1_closed", "plain_page", "multiline_escaped_lt")
     REQUIRED_ACTIONS = ("Request", "H1ReadHeadersError", "StreamError", "H1SendError", "H2SendError",
                         "ConnectEagerFail", "Finish")
     ASSUMPTIONS = (
@@ -458,11 +465,11 @@ class Check(core.PropertyCheck):
         return {}
 
     def _sites(self):
-        return {k: {"protos": frozenset(v[0]), "status": v[1], "srck": v[2], "reflects": v[3], "path": v[4]}
-                for k, v in SITES.items()}
+        return {k: {"protos": frozenset(v[0]), "status": v[1], "srck": v[2], "reflects": v[3], "path": v[4],
+                    "multiline": k in MULTILINE_SITES} for k, v in SITES.items()}
 
     def _atoms(self, names):
-        return {a: {"cls": tuple(ATOMS[a][1]), "markup": tuple(ATOMS[a][2])} for a in names}
+        return {a: {"cls": tuple(ATOMS[a][1]), "markup": tuple(ATOMS[a][2]), "nl": a in NEWLINE_ATOMS} for a in names}
 
     def model_constants(self, tier):
         return {"Sites": self._sites(), "Atoms": self._atoms(ATOMS_QUICK if tier == "quick" else tuple(ATOMS)),
@@ -496,7 +503,7 @@ class Check(core.PropertyCheck):
             # payloads of up to three atoms over the markup-active atoms (statistics only; TLC enumerates the Request
             # quantifier in every state, so the payload set must stay in the hundreds)
             big = ctx.model_check(self.MODEL, self.model_constants(ctx.tier) | {"MaxAtoms": 3,
-                                  "Atoms": self._atoms(("tag", "cmt", "copy", "amp", "quot", "uni"))}, dump=False,
+                                  "Atoms": self._atoms(("tag", "cmt", "copy", "amp", "quot", "lf"))}, dump=False,
                                   tag="_big")
             runs.append(big)
             # design level: the monitor rejects a format_error without escaping and a text/plain declaration
@@ -530,6 +537,10 @@ class Check(core.PropertyCheck):
             site = rng.choice(list(SITES))
             proto = rng.choice(SITES[site][0])
             atoms = [rng.choice(names) for _i in range(rng.randint(1, 7))]
+            if site not in MULTILINE_SITES:
+                atoms = [a for a in atoms if a not in NEWLINE_ATOMS] or ["tag"]
+            elif rng.random() < 0.5:  # multi-line error text: a line break somewhere, markup before and after it
+                atoms.insert(rng.randrange(len(atoms) + 1), rng.choice(NEWLINE_ATOMS))
             sc = {"site": site, "proto": proto, "atoms": atoms, "pre": rng.choice(fill), "post": rng.choice(fill)}
             if rng.random() < 0.2 and site not in ("req_bad_header_name", "resp_bad_header_name"):
                 sc["opts"] = {"validate_inbound_headers": False}
